@@ -22,7 +22,7 @@ done
 pkgs=$(echo $pkgs | tr ' ' '\n' | sort -u | tr '\n' ' ')
 echo "demo files: $demos ; packages: $pkgs"
 run_demo() { (cd $WT && for p in $pkgs; do
-    if ls $p/*_test.go >/dev/null 2>&1; then go test -vet=off -count=1 -run 'ZZ|Mutant|Demo' $p 2>&1 | tail -3
+    if ls $p/*_test.go >/dev/null 2>&1; then go test -vet=off -count=1 -run "${DEMO_RUN:-ZZ|Mutant|Demo}" $p 2>&1 | tail -3
     else if timeout 600 go run $p >/tmp/keep-run-$$.log 2>&1; then echo "ok  $p (program exit 0)"; else tail -2 /tmp/keep-run-$$.log; echo "FAIL $p (program exit non-zero)"; fi; rm -f /tmp/keep-run-$$.log; fi
   done); }
 with=$(run_demo); echo "--- with change:"; echo "$with" | tail -2
